@@ -548,6 +548,11 @@ Loop:
 func findObject(pd *container, path string, options *ApplyOptions) (container, string) {
 	doc := *pd
 
+	// A document that was replaced by null (a nil array) has no locations.
+	if ary, ok := doc.(*partialArray); ok && ary == nil {
+		return nil, ""
+	}
+
 	split := strings.Split(path, "/")
 
 	if len(split) < 2 {
